@@ -341,6 +341,9 @@ def jobs(tier, seed):
     out.append(dict(h="encode", tok="modular", max_seconds=3300))
     for mode, g in [("AOTP_UT_uniform", 4), ("AOTP_UT_rasterized", 3), ("AOTP_CTT_indexed", 5)] + ([] if q else [("AOTP_UT_uniform", 50), ("AOTP_UT_rasterized", 50), ("AOTP_CTT_indexed", 50)]):
         out.append(dict(h="encode", tok=mode, g=g))
+    for tokspec in [dict(tok="modular"), dict(tok="AOTP_CTT_indexed", g=13), dict(tok="AOTP_UT_uniform", g=3)]:
+        for first in range(len(_SHAPES)):
+            out.append(dict(h="sequences", first=first, maxlen=4 if q else 5, **tokspec))
     out.append(dict(h="tables", what="modular_layout"))
     out.append(dict(h="tables", what="prefix"))
     for mode in ("AOTP_UT_uniform", "AOTP_UT_rasterized", "AOTP_CTT_indexed"):
@@ -349,8 +352,75 @@ def jobs(tier, seed):
     return out
 
 
+# ------------------------------------------------------------------------------------------ sequences / string input
+_SHAPES = ["(", ",", ")", "0", "1", "2", "12", "(1,2)", "(0,0)", "<-->", ";", "<PATH_START>", "+1", "-"]
+
+
+def _alphabet(tok):
+    arr = set(tok.token_arr)
+    return [t for t in _SHAPES if t in arr]
+
+
+def _seq_problem(job, first_only=None):
+    """encode / decode on token sequences given as lists and as space-joined strings: exact inverses, nothing re-tokenised.
+    Sequences: every word of length <= maxlen over an alphabet of token shapes that could interact when joined."""
+    import itertools as it
+
+    from maze_dataset.tokenization.maze_tokenizer import TokenError
+
+    tok, n = _tokenizer(job)
+    name = "MazeTokenizerModular" if job["tok"] == "modular" else f"MazeTokenizer({job['tok']},g={job['g']})"
+    alpha = _alphabet(tok)
+    idx = {t: list(tok.token_arr).index(t) for t in alpha}
+    first = alpha[job["first"] % len(alpha)]
+    count = 0
+    for L in range(1, job["maxlen"] + 1):
+        for rest in it.product(alpha, repeat=L - 1):
+            toks = [first, *rest]
+            want = [idx[t] for t in toks]
+            joined = " ".join(toks)
+            count += 1
+            for form, arg in (("list", toks), ("string", joined)):
+                try:
+                    got = tok.encode(arg)
+                except Exception as e:
+                    return count, f"encode-sequence-raises:{name} | encode({arg!r}) raised {type(e).__name__}: {str(e)[:80]} for tokens that are all in the vocabulary"
+                if got != want:
+                    return count, f"encode-sequence-wrong:{name} | encode({arg!r}) = {got}, the tokens' positions are {want}"
+            if tok.decode(want) != toks or tok.decode(want, joined_tokens=True) != joined:
+                return count, f"decode-sequence-wrong:{name} | decode({want}) = {tok.decode(want)} / {tok.decode(want, joined_tokens=True)!r}"
+    if job["first"] == 0:
+        arr = set(tok.token_arr)
+        for bad in ("(1, 2)", "( 1,2)", "(1 ,2)", "<PATH_START><PATH_END>", "( 1", "1,2"):
+            if all(p in arr for p in bad.split()):
+                continue
+            try:
+                got = tok.encode(bad)
+                return count, f"encode-accepts-unknown:{name} | encode({bad!r}) returned {got} although {[p for p in bad.split() if p not in arr]} are not tokens"
+            except TokenError:
+                pass
+            except Exception as e:
+                return count, f"encode-wrong-error:{name} | {type(e).__name__} for {bad!r}"
+    return count, None
+
+
+def _run_seq(job):
+    def run(ctx, pinned=None):
+        ctx.inputs["dummy"] = z3.IntVal(0)
+        count, msg = _seq_problem(job)
+        ctx.notes["sequences"] = count
+        return [(f"encode/decode are exact inverses on {count} token sequences given as lists and as joined strings", z3.BoolVal(msg is None))]
+
+    return run
+
+
+def _replay_seq(job, inputs, notes):
+    return _seq_problem(job)[1]
+
+
 _PATCH = dict(np_modules=["maze_dataset.tokenization.maze_tokenizer"], stub_ascii=False)
 HARNESSES = {
+    "sequences": dict(run=_run_seq, replay=_replay_seq, patch=dict(np_modules=[], stub_ascii=False), validate_every=0),
     "sortkey": dict(run=_run_sortkey, replay=_replay_sortkey, patch=dict(np_modules=[], stub_ascii=False)),
     "decode": dict(run=_run_decode, replay=_replay_decode, patch=_PATCH),
     "encode": dict(run=_run_encode, replay=_replay_encode, patch=_PATCH),
@@ -363,17 +433,17 @@ META = dict(
     bounds=dict(
         quick="sort-key lemma over ALL pairs of cells in N^2 (unbounded integers); decode with symbolic ids over ALL integers (sequence length 1 for the "
               "4096-token vocabulary, 2 for small legacy vocabularies) plus 12 windows around 8/16/32/64-bit wrap boundaries; encode/decode over every "
-              "vocabulary position; constant tables: all 4096 modular positions against the pinned published layout, legacy vocabularies for 3 modes x "
+              "vocabulary position; every word of length <= 4 over 14 token shapes ('(' ',' ')' digits, coordinate tokens, delimiters) as list and as joined string; constant tables: all 4096 modular positions against the pinned published layout, legacy vocabularies for 3 modes x "
               "max_grid_size 1..50, corner-first prefix for n=1..50",
         thorough="adds max_grid_size=50 legacy decode/encode and modular id pairs in two windows",
     ),
-    degenerate=dict(tables="constant tables: concrete evaluation, no symbolic input", encode="position k is forked over the whole table (exhaustive)",
+    degenerate=dict(tables="constant tables: concrete evaluation, no symbolic input", sequences="concrete enumeration of short token words (strings are not symbolic in this engine)", encode="position k is forked over the whole table (exhaustive)",
                     decode="ids inside the vocabulary are forked (list indexing needs a concrete int); ids outside are decided symbolically over all integers"),
     stubs=stubs_description(np_modules=["maze_dataset.tokenization.maze_tokenizer"], stub_ascii=False) + [
         "VOCAB_LIST / token_arr -> list subclass whose indexing with a symbolic int raises IndexError on the out-of-range path instead of enumerating it",
         "sorted in maze_dataset.utils -> capturing wrapper for one call (to obtain the key function)"],
     outside=["the lifting from the sort-key lemma to the prefix property relies on sorted() being stable and np.ndindex being row-major (trusted; "
-             "cross-checked concretely for n <= 50)", "ndim != 2", "id sequences longer than 2"],
+             "cross-checked concretely for n <= 50)", "ndim != 2", "id sequences longer than 2", "token sequences beyond the enumerated words"],
     assumptions=["the published layout is the pinned list refs/vocab_list_4096.json (taken from the repository at the pinned commit) together with the "
                  "structural rules: special tokens first, coordinate block corner-first"],
 )
